@@ -620,9 +620,10 @@ func (s *Sched) race(prev epoch, prevW bool, site uint32, w bool) {
 	} else {
 		s.Races[key] = &Race{Loc: loc, A: a, B: b, Count: 1}
 	}
-	if AbortOnRace && !s.teardown {
-		// after a data race "code between two points is atomic" no longer holds (and racing code may corrupt
-		// library state and spin natively): the execution ends here, the race is the verdict
+	if AbortOnRace && !s.teardown && strings.HasPrefix(loc, "bufio.") {
+		// racing uses of a bufio reader/writer corrupt library state and can spin natively: the execution ends
+		// here, the race is the verdict. Races on plain fields and captured variables are recorded and the
+		// execution goes on, so that the functional oracles still see what the race leads to.
 		s.RaceAbort = true
 		s.startTeardown()
 		runtime.Goexit()
